@@ -66,7 +66,7 @@ theorem sample_eq_ref (cfg : Option Producer.Config) (seq st sv : Nat) (vals : L
   | [a, b, c, d, e], _ =>
     simp only [expSample, Producer.convertSample, Option.map_some, refSample]
     rw [records_eq_ref cfg _ rs h]
-    simp [Except.map, Pipe.stampSflow, FlowMsg.empty]
+    simp [Except.map, Pipe.stampSflow, FlowMsg.empty, Producer.sampleBase]
 
 /-- an expanded flow sample: the interface *values* of the expanded encoding -/
 theorem expanded_sample_eq_ref (cfg : Option Producer.Config) (seq st sv : Nat) (vals : List Nat) (rs : List SRecord)
@@ -78,7 +78,7 @@ theorem expanded_sample_eq_ref (cfg : Option Producer.Config) (seq st sv : Nat) 
   | [a, b, c, d, e, f, g], _ =>
     simp only [expSample, Producer.convertSample, Option.map_some, refSample]
     rw [records_eq_ref cfg _ rs h]
-    simp [Except.map, Pipe.stampSflow, FlowMsg.empty]
+    simp [Except.map, Pipe.stampSflow, FlowMsg.empty, Producer.sampleBase]
 
 /-- counter samples, expanded counter samples and drop samples yield no flow message -/
 theorem non_flow_samples_yield_nothing (cfg : Option Producer.Config) (s : SSample)
